@@ -77,6 +77,16 @@ CLAIMED = {
          "reported. Structural, all paths, nothing executed.",
          "Trusted: CPython's ast parser, sa/terms.py, sa/props/c06.py (accepted sources of randomness). The statistical "
          "quality of `random` / the PRP and the probability bound of the property are not examined."),
+ "C04": ("taint analysis over use-def derivation terms (sources, keyed-primitive sanitisers, EDB/token sinks)",
+         "Decides that no path exists from a secret (keyword, identifier, master key, per-list key) to anything stored in the "
+         "encrypted database or placed in a token except through the message position of a primitive whose key argument is "
+         "key material (or an XOR mask made from one): a complete argument for 'no plaintext by construction' in all nine "
+         "schemes, fillers included (SSE-2's clear identifiers are the one frozen exception). Also decides that every label "
+         "is keyed, that AES-CBC's IV is os.urandom(block size) drawn inside Encrypt and emitted, and that keys/fillers come "
+         "from os.urandom/KeyGen. What remains is the quality of the primitives.",
+         "Trusted: CPython's ast parser, sa/terms.py, the sanitiser table in sa/props/c04.py. Assumes HMAC/AES/Feistel hide "
+         "their message under a secret key; lengths and counts are not treated as content; pairwise distinctness of concrete "
+         "ciphertexts is a property of the library cipher and is not examined."),
 }
 NA_REASON = "check under construction in this session (see DESIGN.md section 3); not yet registered"
 NA = {}
